@@ -36,6 +36,8 @@ func checkC07(ctx *Ctx, r *Report) {
 	c07HuntedRules(ctx, r)
 	c07ReferenceByBareName(ctx, r)
 	c07SecondHunt(ctx, r)
+	c07ThirdHunt(ctx, r)
+	c05GeneratedNamesUnique(ctx, r)
 	c07CallbackState(ctx, r)
 	c18Payloads(ctx, r)
 	c18NilnessOfCollections(ctx, r)
@@ -1689,4 +1691,63 @@ func c07ContextSortedInPlace(ctx *Ctx, r *Report) {
 	if n == 0 {
 		r.OK("copycheck/jenny-context-not-sorted-in-place", "functions receiving a languages.Context", token.NoPos, "none sorts a slice of the context in place")
 	}
+}
+
+// c07ThirdHunt: DisjunctionToType and UndiscriminatedDisjunctionToAny decide what to do with a union from what its
+// reference branches *resolve to*, and keep the list of schemas for that. The Visitor they run replaces the entries of
+// the very list it is given, one schema after the other: resolving through that list gives the processed form of the
+// packages that come first in the inputs and the original form of those that come later — the generated types depend on
+// the order of the inputs. The list kept for resolution is a copy taken before the visit.
+func c07ThirdHunt(ctx *Ctx, r *Report) {
+	p := ctx.Pkg("internal/ast/compiler")
+	if p == nil {
+		r.Undecided("anchor lost: internal/ast/compiler")
+		return
+	}
+	info := p.TypesInfo
+	n := 0
+	for _, name := range []string{"DisjunctionToType", "UndiscriminatedDisjunctionToAny"} {
+		fn := ctx.LookupMethod("internal/ast/compiler", name, "Process")
+		fd, _ := ctx.DeclOf(fn)
+		if fd == nil || fd.Type.Params == nil || len(fd.Type.Params.List) == 0 || len(fd.Type.Params.List[0].Names) == 0 {
+			r.Undecided("anchor lost: compiler.%s.Process", name)
+			continue
+		}
+		param := info.Defs[fd.Type.Params.List[0].Names[0]]
+		stored, copied := false, false
+		ast.Inspect(fd.Body, func(m ast.Node) bool {
+			as, ok := m.(*ast.AssignStmt)
+			if !ok || len(as.Lhs) != 1 || len(as.Rhs) != 1 {
+				return true
+			}
+			f := fieldOf(info, as.Lhs[0])
+			if f == nil || namedName(f.Type()) != "Schemas" {
+				return true
+			}
+			stored = true
+			usesParam := false
+			ast.Inspect(as.Rhs[0], func(k ast.Node) bool {
+				if id, ok := k.(*ast.Ident); ok && objOf(info, id) == param {
+					usesParam = true
+				}
+				return true
+			})
+			if c, ok := ast.Unparen(as.Rhs[0]).(*ast.CallExpr); ok && usesParam {
+				if cf := callee(info, c); cf != nil && cf.Name() == "DeepCopy" {
+					copied = true
+				}
+			}
+			return true
+		})
+		if !stored {
+			// the pass no longer keeps the schemas: nothing to resolve through a list being rewritten
+			r.OK("effects/resolve-in-pre-visit-schemas", "compiler."+name+" keeps no list of schemas", fd.Pos(), "no field of type ast.Schemas is assigned in Process")
+			continue
+		}
+		n++
+		r.Check(copied, "effects/resolve-in-pre-visit-schemas", "compiler."+name+" resolves references in a copy of the schemas", fd.Pos(), "the list kept for resolution is a DeepCopy of the one handed to the visitor",
+			"compiler."+name+" keeps the list of schemas it hands to the Visitor, which replaces its entries one schema after the other: a reference into a package that comes earlier in the inputs resolves to the processed type, into a later one to the original — `common.Size: \"auto\" | string`, `main.Box.width: bool | [...(common.Size | string)]` gives BoolOrArrayOfString for [common, main] and BoolOrArrayOfSizeOrString for [main, common]")
+	}
+	r.Count("passes resolving references while the visitor rewrites the schemas", n)
+	r.Floor("passes resolving references while the visitor rewrites the schemas", 2)
 }
